@@ -262,9 +262,18 @@ class ProgGen:
         self.budget = profile.get("budget", 12)
         self.uses_reads = set()
         self.dead = []
+        self.kw_used = []
 
     def fresh(self, prefix="v"):
         self.counter += 1
+        if prefix in ("v", "i") and self.rng.random() < self.p.get("kw_names", 0.0):
+            # variables spelled like the row entries X / C / Z (any letter case): in a row these spellings are ALWAYS the
+            # don't-care / clock / high-Z entries, never the variable
+            cand = [n for n in ("x", "X", "c", "C", "z", "Z") if n not in self.kw_used]
+            if cand:
+                n = self.rng.choice(cand)
+                self.kw_used.append(n)
+                return n
         return "%s%d" % (prefix, self.counter)
 
     def egen(self, scope, depth=None, allow_random=None):
@@ -399,7 +408,13 @@ class ProgGen:
                         body.insert(r.randrange(0, len(body)), ("let", nv, self.egen(scope)))
                         scope.append(nv)
                     cond = ("bin", "<", ("var", w), ("num", limit))
-                    if r.random() < 0.3:
+                    if r.random() < p.get("while_neg", 0.15):
+                        # any non-zero value is true, negative ones too: w - limit is < 0 until w reaches the limit
+                        cond = ("bin", "-", ("var", w), ("num", limit))
+                    elif p.get("random", 0) > 0 and r.random() < p.get("while_random", 0.2):
+                        # a draw in the condition: one per evaluation of the condition (entry test and every re-test)
+                        cond = ("bin", "&", cond, ("bin", "|", ("fn", "random", [("num", r.choice([1000003, 2 ** 40, 2 ** 62]))]), ("num", 1)))
+                    elif r.random() < 0.3:
                         cond = ("bin", "&", cond, ("bin", "=", ("num", 1), ("num", 1)))
                     elif r.random() < 0.15:
                         # a condition that can fail to evaluate (read of an output that may be Z/X, division)
@@ -672,8 +687,10 @@ def gen_run_case(cid, seed, profile=None):
                 if s[0] == "row":
                     for _ in vcols:
                         y = rng.random()
-                        if y < 0.4:
+                        if y < 0.35:
                             s[1].append(("X",))
+                        elif y < 0.42:
+                            s[1].append(("Z",))
                         elif y < 0.55:
                             # a virtual signal is 64 bits wide: negative and large expected values stay as they are
                             s[1].append(("expr", ("num", rng.choice([-1, -2, -(2 ** 63), 2 ** 63 - 1, -255, 2 ** 40]))))
